@@ -74,7 +74,7 @@ var (
 	c08Prof   = map[int]int{}
 )
 
-const c08MaxCommands = 140 // upper bound of data commands per variant used to size the case list
+const c08MaxCommands = 220 // upper bound of data commands per variant used to size the case list
 
 func init() {
 	core.Register(&core.Prop{
@@ -166,6 +166,9 @@ func c08Execute(c *core.Case, variant, k int, kind string, log bool) (*c08run, s
 			c.Step("server incarnation %s is dead; starting a new one on the same store", w.b.App)
 		}
 		if err := w.b.Restart(); err != nil {
+			if bed.Environmental(err) {
+				return "INCONCLUSIVE", "the new server incarnation did not start for a reason of time or transport: " + err.Error()
+			}
 			return "restart-failed", "a new server incarnation cannot start on the store left by the fault: " + err.Error()
 		}
 		return "", ""
@@ -278,7 +281,8 @@ func runC08(c *core.Case) *core.Result {
 		c08Prof[variant] = ncmd
 		c08ProfMu.Unlock()
 		if ncmd > c08MaxCommands {
-			return c.Violation("harness:profile-too-long", "variant %d issues %d data commands, case list is sized for %d", variant, ncmd, c08MaxCommands)
+			// a sizing limit of the harness, nothing about the tree: the verdict is withheld
+			return c.Inconclusive("HARNESS-SIZING variant %d issues %d data commands, the case list is sized for %d", variant, ncmd, c08MaxCommands)
 		}
 	}
 	if k > ncmd {
@@ -393,7 +397,10 @@ func runC08(c *core.Case) *core.Result {
 			}
 			continue
 		}
-		if d == nil || d.DT.GetState() != model.StateOfDatatype_SUBSCRIBED {
+		if d == nil {
+			return c.Inconclusive("client c%d never opened its datatype", ci)
+		}
+		if d.DT.GetState() != model.StateOfDatatype_SUBSCRIBED {
 			return c.Violation(where+"client-not-recovered", "client c%d is not subscribed after recovery (state %v)", ci, d.DT.GetState())
 		}
 		issued := d.W.CreatePushPullPack().CheckPoint.Cseq
